@@ -10,7 +10,7 @@ from __future__ import annotations
 import keyword
 
 ASCII_NAMES = ["a", "b", "c", "x", "y", "z", "foo", "bar", "_", "_x", "__y__", "self", "cls", "match", "case", "type", "T", "Ts", "P", "x1", "print", "i", "j", "k", "obj", "val"]
-NONASCII_NAMES = ["é", "naïve", "ñ", "π", "Δx", "名前", "ß1", "ŝ", "ｗｉｄｔｈ", "ﬁ", "ªb", "xⅣ"]
+NONASCII_NAMES = ["é", "naïve", "ñ", "π", "Δx", "名前", "ß1", "ŝ", "ｗｉｄｔｈ", "ﬁ", "ªb", "xⅣ", "ﬁle", "µ", "ｏｓ", "ℌ", "ſ", "ǅ"]
 BINOPS = ["+", "-", "*", "/", "//", "%", "@", "**", "<<", ">>", "&", "|", "^"]
 CMPOPS = ["<", ">", "<=", ">=", "==", "!=", "in", "not in", "is", "is not"]
 AUGOPS = ["+=", "-=", "*=", "/=", "//=", "%=", "@=", "**=", "<<=", ">>=", "&=", "|=", "^="]
